@@ -16,7 +16,9 @@ package analysis
 
 // the state of a check in progress: every map exists; declarations that are registered have a name and a type
 //@ spec declOk(d) = d.Name != nil && d.Type != nil
-//@ spec resOk(res) = res != nil && res.emptiedAccount != nil && res.declaredVars != nil && res.unusedVars != nil && res.varResolution != nil && res.fnCallResolution != nil && forallstr(k, has(res.declaredVars, k) ==> declOk(res.declaredVars[k])) && forallref(f, has(res.fnCallResolution, f) ==> typeis(res.fnCallResolution[f], StatementFnCallResolution) || typeis(res.fnCallResolution[f], VarOriginFnCallResolution))
+//@ spec resOk(res) = res != nil && res.emptiedAccount != nil && res.declaredVars != nil && res.unusedVars != nil && res.varResolution != nil && res.fnCallResolution != nil && forallstr(k, has(res.declaredVars, k) ==> declOk(res.declaredVars[k])) && forallref(f, has(res.fnCallResolution, f) ==> typeis(res.fnCallResolution[f], StatementFnCallResolution) || typeis(res.fnCallResolution[f], VarOriginFnCallResolution)) && forallref(v, has(res.varResolution, v) ==> declOk(res.varResolution[v]))
+// the same for a check result held by value (as the language server stores it)
+//@ spec crOk(cr) = cr.emptiedAccount != nil && cr.declaredVars != nil && cr.unusedVars != nil && cr.varResolution != nil && cr.fnCallResolution != nil && forallstr(k, has(cr.declaredVars, k) ==> declOk(cr.declaredVars[k])) && forallref(f, has(cr.fnCallResolution, f) ==> typeis(cr.fnCallResolution[f], StatementFnCallResolution) || typeis(cr.fnCallResolution[f], VarOriginFnCallResolution)) && forallref(v, has(cr.varResolution, v) ==> declOk(cr.varResolution[v]))
 //@ spec exprOk(e) = e == nil || ewf(e)
 
 //@ func (*CheckResult).assertHasType
@@ -135,15 +137,19 @@ package analysis
 //@     invariant [state] resOk(res)
 
 //@ func newCheckResult
-//@   ensures [state] result.emptiedAccount != nil && result.declaredVars != nil && result.unusedVars != nil && result.varResolution != nil && result.fnCallResolution != nil && len(result.Diagnostics) == 0 && fresh(ref(result.emptiedAccount)) && fresh(ref(result.declaredVars)) && fresh(ref(result.unusedVars)) && fresh(ref(result.varResolution)) && fresh(ref(result.fnCallResolution)) && result.Program == program && forallstr(k, !has(result.declaredVars, k)) && forallref(f, !has(result.fnCallResolution, f))
+//@   ensures [state] result.emptiedAccount != nil && result.declaredVars != nil && result.unusedVars != nil && result.varResolution != nil && result.fnCallResolution != nil && len(result.Diagnostics) == 0 && fresh(ref(result.emptiedAccount)) && fresh(ref(result.declaredVars)) && fresh(ref(result.unusedVars)) && fresh(ref(result.varResolution)) && fresh(ref(result.fnCallResolution)) && result.Program == program && forallstr(k, !has(result.declaredVars, k)) && forallref(f, !has(result.fnCallResolution, f)) && forallref(v, !has(result.varResolution, v))
 //@   modifies nothing
 
 //@ func CheckProgram
 //@   requires [program] ewf(program)
+//@   ensures [result-state] {C18} crOk(result) && ewf(result.Program)
 //@   modifies nothing
 
 // CheckSource = Parse, the parse errors as diagnostics, then the check
+//@ relation analysed
 //@ func CheckSource
+//@   assumes [is-the-analysis] {C19} analysed(result, source)
+//@   ensures [result-state] {C18,C19} crOk(result) && ewf(result.Program)
 //@   modifies allof(parser.ErrorListener), allelems(parser.ParserError)
 //@   loop 1
 //@     invariant [state] resOk(addr(res))
@@ -209,7 +215,7 @@ package analysis
 
 //@ func GotoDefinition
 //@   requires [program] ewf(program)
-//@   requires [resolution] forallref(v, has(checkResult.varResolution, v) ==> declOk(checkResult.varResolution[v]))
+//@   requires [resolution] crOk(checkResult)
 //@   modifies nothing
 
 //@ func (*CheckResult).GetSymbols
